@@ -703,6 +703,21 @@ def cmdConnCtx : P String := do
   if !cancelled then return s!"DIFF C17 handler-context-not-cancelled-after-its-connection-ended {feats}"
   return s!"OK {feats}"
 
+/-! ## C17/C18: `duplex <side> <nwrite> <nreply> | <wn> <wok> <early> <equal>` — Read and Write at the same time on an upgraded connection -/
+
+def cmdDuplex : P String := do
+  let side ← tok
+  let nw ← nat
+  let nr ← nat
+  expect "|"
+  let wn ← nat; let wok ← bool; let early ← bool; let equal ← bool
+  let feats := s!"nt=1 side={side} nwrite={nw} nreply={nr}"
+  -- each operation has its own helper and its own result (the C17 LTS has one result slot per operation)
+  if !wok || wn != nw then return s!"DIFF C17 write-concurrent-with-a-blocked-read-reports-another-result wrote={wn} {feats}"
+  if early then return s!"DIFF C17 blocked-read-returned-without-input-when-a-write-completed {feats}"
+  if !equal then return s!"DIFF C18 read-concurrent-with-a-write-did-not-deliver-the-peers-bytes {feats}"
+  return s!"OK {feats}"
+
 /-! ## C02 send side under concurrency: `bigframes <conns> <calls> <procs> | <bad> <first>` (oracle evaluated in the harness) -/
 
 def cmdBigFrames : P String := do
@@ -770,6 +785,6 @@ def cmdJsonStruct : P String := do
         return s!"DIFF JSON struct-reply-fields-differ {feats}"
       return s!"OK {feats}"
 
-def table : List (String × P String) := [("act", cmdAct), ("atoi", cmdAtoi), ("addr", cmdAddr), ("reg", cmdReg), ("client", cmdClient), ("e2e", cmdE2e), ("abort", cmdAbort), ("connr", cmdConnR), ("jsonself", cmdJsonSelf), ("upgrade", cmdUpgrade), ("upgradebig", cmdUpgradeBig), ("scale", cmdScale), ("gone", cmdGone), ("connctx", cmdConnCtx), ("bigframes", cmdBigFrames), ("ctxsplit", cmdCtxSplit), ("jsonstruct", cmdJsonStruct)]
+def table : List (String × P String) := [("act", cmdAct), ("atoi", cmdAtoi), ("addr", cmdAddr), ("reg", cmdReg), ("client", cmdClient), ("e2e", cmdE2e), ("abort", cmdAbort), ("connr", cmdConnR), ("jsonself", cmdJsonSelf), ("upgrade", cmdUpgrade), ("upgradebig", cmdUpgradeBig), ("scale", cmdScale), ("gone", cmdGone), ("connctx", cmdConnCtx), ("duplex", cmdDuplex), ("bigframes", cmdBigFrames), ("ctxsplit", cmdCtxSplit), ("jsonstruct", cmdJsonStruct)]
 
 end Driver.Misc
